@@ -346,7 +346,7 @@ def run_case(case, modules):
                 # which source pattern is this?  identify by what it matches
                 for text in untils:
                     if all(p.match(h, m) == spec_matches(text, h * 3600 + m * 60)
-                           for h in range(24) for m in (0, 5, 15, 30, 59, 7, 42)):
+                           for h in (0, 7, 12, 23) for m in range(60)):
                         ctx['until_text'] = text
                         break
                 return real_until(p)
